@@ -27,7 +27,8 @@ REQUIRED = ['bipropCheck_sound', 'bipropCheckL_sound', 'infeasible_sound', 'infe
             'update_preserves_inv', 'step_done_rows', 'run_ok_rows', 'run_preserves_columns', 'run_ok_sound',
             'evaluate_ok_sound', 'initState_consistent', 'evaluate_sound', 'evaluate_marginals',
             'partySeats_divisor_method', 'districtSeats_divisor_method',
-            'step_refusal_justified', 'run_refusal_justified', 'evaluate_refusal_justified']
+            'step_refusal_justified', 'run_refusal_justified', 'evaluate_refusal_justified',
+            'firstAppearance_covers', 'ordCovers_range']
 REQUIRED_COUNTERS = ['transfer_step', 'coef_update', 'zero_cell', 'refusal', 'tie_in_initial_allocation',
                      'zero_vote_party', 'seats_total', 'seats_dict', 'seats_custom', 'd_hondt', 'sainte_lague',
                      'cert_checked_by_lean', 'cut_checked_by_lean', 'large_counts', 'str_keys', 'init_ok_confirmed',
@@ -41,7 +42,8 @@ REQUIRED_COUNTERS = ['transfer_step', 'coef_update', 'zero_cell', 'refusal', 'ti
                      'custom_ha_same', 'custom_dict2',
                      'zero_vote_district', 'two_zero_vote_parties', 'single_party_district', 'large_matrix', 'degenerate_dim',
                      'seatless_party', 'seatless_party_tips_district',
-                     'second_call_same_object', 'second_call_after_refusal', 'second_call_smaller', 'other_config_first']
+                     'second_call_same_object', 'second_call_after_refusal', 'second_call_smaller', 'other_config_first',
+                     'party_order_not_by_index', 'sparse_first_district_lacks_party0']
 RULE = ('2-6 districts x 2-6 parties, non-negative integer votes (tiny 0-3, small, mid, up to 10^25; zero cells given as 0 or '
         'as a missing key; zero-vote '
         'parties), D\'Hondt and Sainte-Lague, seats as a total (1..~5m), explicit per-district dict, or custom apportioner '
@@ -55,11 +57,20 @@ NOT_VERIFIED = [
     'the tie-and-transfer algorithm is not proved to terminate; every output is certified instead.  Partial correctness of '
     'the port (evaluate_sound, evaluate_marginals) and "refuses only infeasible instances" (evaluate_refusal_justified) ARE '
     'proved without semantic hypotheses; they carry over to votelib only through the differential correspondence',
-    'frozenset iteration order of _districts_unsat: modelled as ascending district index (CPython order for the small-int '
-    'keys used in the correspondence); with str keys the order depends on the hash seed, those cases are certificate-checked '
-    'only',
+    'iteration orders: parties in order of first appearance in the input dicts (modelled exactly: firstAppearance of the '
+    'presence mask, the harness inserts keys by ascending index); districts in the order of the input dict (= row index); '
+    '_districts_unsat iterates a frozenset, modelled as ascending district index (CPython order for the small-int keys of '
+    'the correspondence) - with str / object keys that order depends on the hash seed, those cases are certificate-checked only',
     'HighestAverages sorted-list/bisect bookkeeping is modelled as a pool from which the batch of maximal quotients is taken',
-    'SIGNPOST_QS lookup: q is read from the real class attribute and passed to the model',
+    'SIGNPOST_QS lookup: q is read from the real class attribute (or from the explicit signpost_q argument) and passed to '
+    'the model',
+    'outside the quantifier (D\'Hondt and Sainte-Lague only), observed, not checked: (1) the documented route "other divisor + '
+    'explicit signpost_q" does not work for q outside {0, 1/2}: the conjunct int(quotient) == quotient - q of '
+    '_is_upgradable/_is_downgradable only holds there, so no cell is ever tied and e.g. BiproportionalEvaluator("danish", '
+    'signpost_q=Fraction(2,3)) refuses a plain feasible 3x3 instance ("invalid adjustment coefficient 1"); (2) a '
+    'modified_first_coef divisor has a non-stationary first signpost, which no signpost_q can express, so its initial '
+    'solution is not consistent with the multipliers; (3) Decimal vote counts raise TypeError inside HighestAverages '
+    '(Fraction(Decimal, int)) before the evaluator starts',
 ]
 UNPROVED = ['termination of tie-and-transfer (the port reports OutOfFuel; no decreasing measure proved): monitored by wall '
             'clock on the real code',
@@ -625,13 +636,21 @@ def model_line(case):
     qv = kw['signpost_q'] if 'signpost_q' in kw else vp.BiproportionalEvaluator.SIGNPOST_QS.get(case['divisor'])
     if qv is None or (sp['kind'] != 'total' and 'rows' not in sp):
         return None
-    return {'op': 'biprop_eval', 'divisor': case['divisor'], 'q': num_str(Fraction(qv)), 'votes': case['votes'],
+    line = {'op': 'biprop_eval', 'divisor': case['divisor'], 'q': num_str(Fraction(qv)), 'votes': case['votes'],
             'total': _total(case), 'rows': None if sp['kind'] == 'total' else sp['rows'], 'fuel': 20000}
+    if case.get('sparse'):
+        # which cells are keys of the district dicts: the model derives `all_parties` (order of first appearance) from it
+        line['present'] = [[v != 0 for v in r] for r in _matrix(case)]
+    return line
 
 
 def compare(case, iobs, mobs):
     if isinstance(mobs, dict) and 'votes_ok' in mobs:
         # the decidable hypotheses of evaluate_ok_sound must hold on real inputs (else the theorem is vacuous there)
+        if mobs.get('mask_ok') is not True or mobs.get('ord_covers') is not True:
+            return f'hypothesis maskOk / ordCovers of the refusal theorems fails on a generated input: {json.dumps(mobs)[:200]}'
+        if mobs.get('ord') != sorted(mobs.get('ord')):
+            _tag(case, 'party_order_not_by_index')
         if mobs.get('votes_ok') is not True or mobs.get('has_votes') is not True:
             return f'hypothesis votesOk / hasVotes of evaluate_sound fails on a generated input: {json.dumps(mobs)[:200]}'
         if mobs.get('init_ok') is False:
@@ -952,6 +971,17 @@ def _directed_config(rng):
     return _mk(rng, V, divisor, seats, keys=keys, vtype='frac' if what == 3 else 'int', divspec=divspec, tags=['directed_config'])
 
 
+def _directed_sparse_order(rng):
+    """sparse dicts whose first district lacks party 0: `all_parties` (order of first appearance) is not the index order"""
+    m, n = rng.randint(2, 5), rng.randint(3, 5)
+    V = _rand_matrix(rng, m, n, rng.choice(['small', 'tiny', 'mid']), 0.3)
+    V[0][0] = 0
+    if not any(V[0]):
+        V[0][1] = 3
+    return _mk(rng, V, rng.choice(DIVS), {'kind': 'total', 'n': rng.randint(m, 4 * m)}, sparse=True,
+               tags=['sparse_dict', 'sparse_first_district_lacks_party0'])
+
+
 def _directed_history(rng):
     """the same evaluator object used before (larger matrix first; a refused instance first), or another configuration first"""
     m, n = rng.randint(2, 4), rng.randint(2, 4)
@@ -978,7 +1008,7 @@ def _directed_history(rng):
 
 def _exhaustive():
     """small scopes, thorough tier: every matrix over a small alphabet, every total, both rules"""
-    for (m, n, alpha, tmax) in [(2, 2, range(0, 6), 7), (2, 3, (0, 1, 2, 4), 6), (3, 2, (0, 1, 2, 4), 6), (3, 3, (0, 1, 3), 5)]:
+    for (m, n, alpha, tmax) in [(2, 2, range(0, 6), 7), (2, 3, (0, 1, 2, 4), 6), (3, 2, (0, 1, 2, 4), 6), (3, 3, (0, 1, 3), 4)]:
         for cells in itertools.product(alpha, repeat=m * n):
             V = [list(cells[i * n:(i + 1) * n]) for i in range(m)]
             if any(not any(r) for r in V):
@@ -989,8 +1019,8 @@ def _exhaustive():
 
 
 def _gen(rng, tier):
-    N = 3000 if tier == 'quick' else 30000
-    D = 60 if tier == 'quick' else 800
+    N = 3000 if tier == 'quick' else 12000
+    D = 60 if tier == 'quick' else 400
     k = 0
     tries = 0
     while k < N and tries < 20 * N:
@@ -1003,7 +1033,8 @@ def _gen(rng, tier):
                              (_directed_zero_party, 'zero_vote_party', D // 2),
                              (_directed_seatless, 'seatless_party_tips_district', D // 2),
                              (_directed_shapes, 'directed_shape', 2 * D), (_directed_config, 'directed_config', 4 * D),
-                             (_directed_history, 'directed_history', 2 * D)]:
+                             (_directed_history, 'directed_history', 2 * D),
+                             (_directed_sparse_order, 'sparse_first_district_lacks_party0', 4 * D)]:
         got = 0
         tries = 0
         while got < cnt and tries < 60 * cnt:
